@@ -131,6 +131,7 @@ static long visited[NE + 1];
 static int nvisited, stop_at;
 static unsigned long erase_mask;
 static struct cstl_dlist * visit_list;
+static struct cstl_dlist * move_to;     /* foreachmv: removed elements are appended to this list */
 
 static int visit(void * e, void * p)
 {
@@ -143,8 +144,13 @@ static int visit(void * e, void * p)
          * it (frees it, links it elsewhere): overwrite both links */
         struct elem * el = e;
         cstl_dlist_erase(visit_list, e);
-        el->n.n = el->n2.n = &poisonv[el - pool];
-        el->n.p = el->n2.p = &poisonv[el - pool];
+        if (move_to != NULL) {
+            /* ... links it elsewhere: the element goes to the end of another list */
+            cstl_dlist_push_back(move_to, e);
+        } else {
+            el->n.n = el->n2.n = &poisonv[el - pool];
+            el->n.p = el->n2.p = &poisonv[el - pool];
+        }
     }
     return nvisited++ == stop_at ? h_stop_value(stop_at) : 0;
 }
@@ -350,6 +356,20 @@ static void op(int argc, char ** argv)
         visit_list = l;
         r = cstl_dlist_foreach(l, visit, H_PRIV(2),
                                argv[2][0] == 'f' ? CSTL_DLIST_FOREACH_DIR_FWD : CSTL_DLIST_FOREACH_DIR_REV);
+        outf("%d ", r);
+        print_visited();
+    } else if (!strcmp(o, "foreachmv") && argc == 6 && l && list_of(argv[5]) && list_of(argv[5]) != l
+               && list_of(argv[5])->off == l->off) {
+        /* like foreach, but the visit function moves the elements it removes to another list */
+        int r;
+        nvisited = 0;
+        stop_at = (int)h_int(argv[3]);
+        erase_mask = strtoul(argv[4], NULL, 10);
+        visit_list = l;
+        move_to = list_of(argv[5]);
+        r = cstl_dlist_foreach(l, visit, H_PRIV(2),
+                               argv[2][0] == 'f' ? CSTL_DLIST_FOREACH_DIR_FWD : CSTL_DLIST_FOREACH_DIR_REV);
+        move_to = NULL;
         outf("%d ", r);
         print_visited();
     } else if (!strcmp(o, "find") && argc == 4 && l) {
